@@ -2,7 +2,8 @@
    (Gen.C13Gen) that discharge the hypotheses of Proofs.C13_AdaptiveProofs. *)
 From Coq Require Import List Arith Bool ZArith QArith Lia.
 Import ListNotations.
-Require Import Model.C12_Refine Model.C12_Geom Model.C13_Adaptive Proofs.C12_GlobalProofs.
+Require Import Base.C11_Unique Model.C11_Topo.
+Require Import Model.C12_Refine Model.C12_Geom Model.C13_Adaptive Model.C12_Global Proofs.C12_GlobalProofs.
 Require Import Proofs.C12_RefineProofs Proofs.C12_GeomProofs Proofs.C13_AdaptiveProofs Gen.C13Gen.
 Local Open Scope nat_scope.
 
@@ -81,3 +82,8 @@ Lemma tri13_rf2_ok : rf2_ok 3 gen13_tri_rfacets.
 Proof.
   intros a Ha. destruct a as [|[|[|a]]]; simpl in Ha; try lia; eexists _, _; (split; [reflexivity|]); repeat split; lia.
 Qed.
+
+Lemma tri13_slots_ok : slots_ok 3 gen13_tri_rfacets = true.
+Proof. vm_compute. reflexivity. Qed.
+Lemma split_blocks_ok : adapt_okb gen_split_blocks = true.
+Proof. vm_compute. reflexivity. Qed.
